@@ -25,7 +25,12 @@ where
 
     fn try_from(bytes: UintRef<'a>) -> der::Result<Uint<LIMBS>> {
         let mut array = Array::default();
-        let offset = array.len().saturating_sub(bytes.len().try_into()?);
+        let len: usize = bytes.len().try_into()?;
+        // An INTEGER with more content octets than `Self` can hold does not fit.
+        let offset = array
+            .len()
+            .checked_sub(len)
+            .ok_or_else(|| Self::TAG.length_error())?;
         array[offset..].copy_from_slice(bytes.as_bytes());
         Ok(Uint::from_be_byte_array(array))
     }
